@@ -47,6 +47,27 @@ func genC20(t *rapid.T) C20Case {
 			}
 		}
 	})
+	// completion sources that overlap: static argument suggestions, dynamic ones, sub-command names and
+	// suggested / dynamically suggested option values may offer the same candidate more than once
+	spec.Walk(func(path string, c *CmdSpec, _ []*CmdSpec) {
+		if rapid.Bool().Draw(t, "argsugg") {
+			pool := []string{"alpha", "alphabet", "beta", "sandbox", "staging", "list-item", "prod"}
+			n := rapid.IntRange(2, len(pool)).Draw(t, "nargsugg")
+			c.ArgSugg = append([]string{}, rapid.Permutation(pool).Draw(t, "argsuggorder")[:n]...)
+			if len(c.Cmds) > 0 && rapid.Bool().Draw(t, "suggcmd") {
+				c.ArgSugg = append(c.ArgSugg, c.Cmds[0].Name)
+			}
+			if rapid.Bool().Draw(t, "argdyn") {
+				c.ArgDyn = []string{c.ArgSugg[0], "staging", "dyn2", c.ArgSugg[len(c.ArgSugg)-1]}
+			}
+		}
+		for i := range c.Opts {
+			o := &c.Opts[i]
+			if len(o.Suggested) > 0 && rapid.IntRange(0, 2).Draw(t, "dynvals") == 0 {
+				o.DynValues = append([]string{"dynval"}, o.Suggested...)
+			}
+		}
+	})
 	ac := DefaultArgvCfg()
 	ac.Unknown = 5
 	ac.Hostile = 3 // ambiguous prefixes such as --ver, --h
@@ -131,6 +152,15 @@ func genCompLine(t *rapid.T, spec *ProgSpec) string {
 		}
 	case 5:
 		last = rapid.SampledFrom([]string{"x", "h", "l", "-v", "--ver"}).Draw(t, "cl_lw")
+	}
+	if len(lv.Spec.ArgSugg) > 0 && !strings.HasPrefix(last, "-") && rapid.Bool().Draw(t, "cl_sugg") {
+		// a non-empty start of a static argument suggestion: some suggestions are filtered out, others kept
+		k := rapid.SampledFrom(lv.Spec.ArgSugg).Draw(t, "cl_suggword")
+		cut := rapid.IntRange(1, len(k)).Draw(t, "cl_suggcut")
+		for !isRuneBoundary(k, cut) {
+			cut--
+		}
+		last = k[:cut]
 	}
 	return strings.Join(words, " ") + " " + last
 }
